@@ -685,6 +685,24 @@ func (c *FnCtx) evalCall(x *ECall, env *Env) (TV, error) {
 			k, s := c.g.heapKeyFor(p.Elem())
 			h := c.heap(env.st, k, s)
 			return TV{sel(h, args[0].t), p.Elem()}, nil
+		case "countEq":
+			// countEq(m, v): number of keys of map m whose value is v
+			args, err := evalArgs()
+			if err != nil {
+				return TV{}, err
+			}
+			mt, ok := types.Unalias(args[0].typ).Underlying().(*types.Map)
+			if !ok {
+				return TV{}, fmt.Errorf("countEq needs a map")
+			}
+			name, _, _, ok := c.g.cntFun(mt)
+			if !ok {
+				return TV{}, fmt.Errorf("countEq: unsupported value type")
+			}
+			hk, hs, vk, vs := c.g.mapHeapKeys(mt)
+			hasArr := sel(c.heap(env.st, hk, hs), args[0].t)
+			valArr := sel(c.heap(env.st, vk, vs), args[0].t)
+			return TV{mk(SInt, name, hasArr, valArr, args[1].t), types.Typ[types.Int]}, nil
 		case "ctxDone":
 			// ctxDone(ctx): the context has been observed done (monotone ghost set)
 			args, err := evalArgs()
